@@ -216,6 +216,9 @@ func (fv *FnV) moduleCall(st *State, callee *ssa.Function, args []ssa.Value, clo
 	if k != nil {
 		env := fv.calleeEnv(st, pre, callee, argTerms, clo, res)
 		for _, cl := range k.Ensures {
+			if strings.Contains(cl.Text, "callresult(") || strings.Contains(cl.Text, "called(") {
+				continue // talks about the callee's own intermediate values: proved there, not exported to callers
+			}
 			t, err := env.evalBool(cl.Text)
 			if err != nil {
 				return nil, fmt.Errorf("%s: call of %s: ensures %s: %v", fv.name, cname, cl.Label, err)
@@ -742,14 +745,6 @@ func (fv *FnV) doReturn(st *State, ins *ssa.Return) error {
 	if sig.Results().Len() > 0 && isErrorType(sig.Results().At(sig.Results().Len()-1).Type()) {
 		retErr := fv.term(results[len(results)-1])
 		fv.errorChecks(st, "return", not(eq(retErr, "a!nil")), pos, false)
-		// a failing return carries no partial result
-		if fv.k != nil && len(fv.k.ErrorTags) > 0 && len(results) > 1 {
-			var zs []string
-			for i, r := range results[:len(results)-1] {
-				zs = append(zs, eq(fv.term(r), fv.g.zero(sig.Results().At(i).Type())))
-			}
-			fv.addPending(st, "X", "zero-on-error", fv.k.ErrorTags, implies(not(eq(retErr, "a!nil")), and(zs...)), "a return with a non-nil error carries zero values for the other results", fv.fn.Pos())
-		}
 	} else if len(fv.errCalls) > 0 {
 		fv.errorChecks(st, "return", "false", pos, false)
 	}
